@@ -33,7 +33,7 @@ TRUSTED = ["extraction: ExtrOcamlBasic only; OCaml 4.13.1; comp/rb/driver.ml (pr
            "oracle: independent walker over the real nodes + reference sequence (std::vector, stable sorted insertion)",
            "pointer-level model Rb/RbPtr.v: transliteration of rbtree.hpp by hand (source order of assignments, FRG_ASSERT -> PAssert, "
            "null dereference -> PUB, loops with fuel); tied to the source by the second correspondence run; its refinement to the "
-           "functional core is PROVED (Properties_C06_ptr.v) -- what remains compared only is listed there as _partial",
+           "functional core is PROVED for insert and remove (Properties_C06_ptr.v); compared only: tree_order_struct::insert's descent and the annotation values (listed there as _partial)",
            "comp/rb/driver.ml `ptr` mode: re-tabulates the heap function into an array after every op from the model's write log (extensionally the identity)",
            "Rb/RbCases.v (case tags) is statistics only, nothing proved about it"]
 ASSUMPTIONS = ["less is asymmetric and negatively transitive (strict weak order; Section hypotheses)",
